@@ -168,12 +168,13 @@ theorem C10_crash (s : Sys) (h : Consistent s.store) (es es' : List Ev) (_hp : e
 
 /-- in every reachable state every lock key carries an expiry: a dead holder cannot block an address forever.
 
-True *by construction* of the model: the only step that creates a lock cell is `RStore.lockSetNX`, which writes
-`ttl := true` unconditionally (`Model/Store.lean`), so this theorem only says that no other step of the model creates or
-alters a cell.  The tie to the code is not this theorem but `facts_lock_ttl` below (the regenerated facts about
-`redislock.go`: one `SetNX` whose TTL argument is `Guard`'s `ttl` parameter, filled with the positive lease option, and no
-separate `Expire` / `PExpire` / `Persist` / `Set` call) together with the differential run, whose keyspace dumps carry a
-TTL flag for every lock key. -/
+Since review round 3 this is **not** true by construction any more: `RStore.lockSetNX` writes `ttl := leaseHasTTL`, i.e.
+`decide (0 < Facts.lockLeaseMs)` — the lease duration read from a real repository instance on every run — and the proof goes
+through `leaseHasTTL_eq` (`Lemmas/StoreConsistent.lean`, `lockSetNX_consistent`); with a lease of 0 the theorem would be false
+(`lock_ttl_needs_positive_lease`).  And the flag is **read**: `RStore.lockExpire` leaves a cell without TTL alone, so this
+theorem is the premise of `holder_death_unblocks` below.  The syntactic tie to `redislock.go` (one `SetNX` whose TTL argument
+is `Guard`'s `ttl` parameter, filled with the lease option; no separate `Expire` / `PExpire` / `Persist` / `Set` call) is
+`facts_lock_ttl` below, and the differential run compares the TTL flag of every lock key in the keyspace dumps. -/
 theorem lock_ttl (s : Sys) (h : Consistent s.store) (es : List Ev) (k : Nat) (c : LockCell)
     (hc : (s.run es).store.locks[k]? = some c) : c.ttl = true :=
   (C10_main s es h).ttl k c hc
@@ -233,7 +234,7 @@ example :
 
 /-- a lock cell exists after `SET NX EX`, so `lock_ttl` is not vacuous -/
 example : ((({} : RStore).lockSetNX 3 1).1).locks[3]? = some ⟨1, true⟩ := by
-  simp [lockSetNX, touchLock]
+  simp [lockSetNX, touchLock, leaseHasTTL_eq]
 
 end Swat4.C10
 
@@ -303,61 +304,80 @@ theorem facts_lock_ttl :
 
 end Swat4.C10
 
-/-! # Additions (review round 2): "no crash can block a server forever" in terms of what the model has
+/-! # Additions (review rounds 2 and 3): "no crash can block a server forever"
 
-The reviewer's observation is correct: `LockCell.ttl` is **decorative** in the model.  `RStore.lockExpire`
-(`Model/Store.lean`) removes the cell without reading the flag, `lockSetNX` writes `ttl := true` unconditionally, so
-`lock_ttl` / `Consistent.ttl` are true by construction and play no part in any liveness argument.  What the model *does*
-have is the event `Ev.expire k` (the lease of `servers:lock:<k>` runs out), which the scheduler may fire at any point.
-The theorems below state "a dead holder does not block its address" with that event:
+Round 2's reviewer observed that `LockCell.ttl` was **decorative**: `RStore.lockExpire` removed the cell without reading the
+flag and `lockSetNX` wrote `ttl := true` unconditionally, so `lock_ttl` / `Consistent.ttl` were true by construction and
+played no part in any liveness argument.  Round 3 changed the model (`Model/Store.lean`):
+
+* `lockExpire` acts **only on a cell whose `ttl` flag is set** — a key without TTL never expires;
+* `lockSetNX` writes `ttl := leaseHasTTL = decide (0 < Facts.lockLeaseMs)`.
+
+On reachable stores nothing changes (`lockExpire_respects_ttl`: all cells carry a TTL, and there the old and the new expiry
+coincide — which is why the differential runs of C09–C16, whose driver executes this model, are unaffected).  But the
+theorems now *depend* on the flag:
 
 * a *dead* client is one that is never scheduled again (`Sys` has no separate death event: a client that takes no further
   step is exactly a process that died at a command boundary, which is how `C10_crash` reads it);
 * `blocked_while_held`: as long as the cell is there, every other call's `SET NX` on that address fails — the address *is*
   blocked until the lease runs out (or the holder releases);
-* `holder_death_unblocks`: after `Ev.expire k`, whoever held the cell and whether or not it is alive, the next `SET NX` on
-  `k` by any client succeeds; `holder_death_unblocks_writer`: the same as two events of the system.
+* `holder_death_unblocks`: in every **reachable** state, after `Ev.expire k`, whoever held the cell and whether or not it
+  is alive, the next `SET NX` on `k` by any client succeeds.  The premise "the cell of `k` carries a TTL" is discharged by
+  `lock_ttl` (`holder_death_unblocks_of_ttl` is the step with the premise explicit);
+  `holder_death_unblocks_writer`: the same as two events of the system;
+* `no_ttl_blocks_forever`: the premise is needed — a cell **without** TTL survives any number of expiry events and keeps
+  refusing every `SET NX`: had the code created lock keys without expiry, a dead holder would block its address for good.
 
-**The premise that the event `Ev.expire k` can happen at all — "the key has a TTL" — is not a fact of the model.**  It is
-pinned by the source-fact theorem `facts_lock_ttl` (one `SetNX` whose TTL argument is `Guard`'s `ttl`, filled with the
-positive lease; no `Expire` / `Persist` / plain `Set`) and by the TTL flag in the keyspace dumps of the differential run.
-`lockExpire_respects_ttl` says what the flag would be for if the model read it: on every reachable store the model's
-expiry coincides with the TTL-respecting expiry `lockExpireTTL`, and a cell *without* TTL would never be freed by it. -/
+That the expiry event *occurs* (time passes, Redis expires the key) is the scheduler's business, as for every `Ev`. -/
 namespace Swat4.C10
 open Swat4 Swat4.RStore Std
 
-/-- the lease-expiry event frees the lock key, whatever it held and whether or not expiry invalidates watchers -/
-theorem expire_frees (s : Sys) (k : Nat) : (s.step (.expire k)).store.locks[k]? = none :=
-  RStore.lockExpire_frees s.store k s.dirties
+/-- the lease-expiry event frees the lock key, whatever it held and whether or not expiry invalidates watchers —
+**if its cell carries a TTL** (premise: `lock_ttl` on reachable states) -/
+theorem expire_frees (s : Sys) (k : Nat) (httl : ∀ c : LockCell, s.store.locks[k]? = some c → c.ttl = true) :
+    (s.step (.expire k)).store.locks[k]? = none :=
+  RStore.lockExpire_frees s.store k s.dirties httl
 
-/-- **`holder_death_unblocks`** (clause "every lock key carries an expiry, so no crash can block a server forever"): in
-any state — in particular one where `servers:lock:<k>` is held by a client that has died and will never release it —
-after the lease-expiry event of that key, a `SET NX` on `k` by **any** client with any token succeeds and installs that
-client's cell (again with a TTL).  The premise "the key has a TTL, so the expiry event does occur" is pinned by
-`facts_lock_ttl`, not by the model (where `LockCell.ttl` is not read by `lockExpire`). -/
-theorem holder_death_unblocks (s : Sys) (k tok : Nat) :
+/-- the step behind `holder_death_unblocks`, with the premise explicit: in a state where the cell of `k` (if any) carries a
+TTL, after the lease-expiry event of that key a `SET NX` on `k` with any token succeeds and installs that cell -/
+theorem holder_death_unblocks_of_ttl (s : Sys) (k tok : Nat)
+    (httl : ∀ c : LockCell, s.store.locks[k]? = some c → c.ttl = true) :
     ((s.step (.expire k)).store.lockSetNX k tok).2 = true ∧
     ((s.step (.expire k)).store.lockSetNX k tok).1.locks[k]? = some ⟨tok, true⟩ := by
-  rw [RStore.lockSetNX_none (expire_frees s k)]
+  rw [RStore.lockSetNX_none (expire_frees s k httl)]
   refine ⟨rfl, ?_⟩
   show ((s.step (.expire k)).store.locks.insert k ⟨tok, true⟩)[k]? = _
   simp
 
-/-- … as two events of the interleaved system: a registry call `j` standing at its `SET NX` acquires the lock of its
-address right after that key's lease expired — whoever held it before — and moves on to `WATCH` -/
-theorem holder_death_unblocks_writer (s : Sys) (j : Nat) (w : Writer) (hc : s.clients[j]? = some (.writer w))
-    (hpc : w.pc = .setnx) :
-    (((s.step (.expire w.key)).step (.step j)).store.locks[w.key]? = some ⟨w.tok, true⟩) ∧
-    ((s.step (.expire w.key)).step (.step j)).clients[j]? = some (.writer { w with pc := .watch }) := by
+/-- **`holder_death_unblocks`** (clause "every lock key carries an expiry, so no crash can block a server forever"): in
+every state `s0.run es` reachable from a consistent keyspace — in particular one where `servers:lock:<k>` is held by a
+client that has died and will never release it — after the lease-expiry event of that key, a `SET NX` on `k` by **any**
+client with any token succeeds and installs that client's cell (again with a TTL).  The premise "the key has a TTL, so the
+expiry event removes it" comes from `lock_ttl`, i.e. from `leaseHasTTL` (the positive lease extracted from the source) —
+it is not free: `no_ttl_blocks_forever`. -/
+theorem holder_death_unblocks (s0 : Sys) (h : Consistent s0.store) (es : List Ev) (k tok : Nat) :
+    (((s0.run es).step (.expire k)).store.lockSetNX k tok).2 = true ∧
+    (((s0.run es).step (.expire k)).store.lockSetNX k tok).1.locks[k]? = some ⟨tok, true⟩ :=
+  holder_death_unblocks_of_ttl (s0.run es) k tok fun c hc => lock_ttl s0 h es k c hc
+
+/-- … as two events of the interleaved system: in a reachable state, a registry call `j` standing at its `SET NX`
+acquires the lock of its address right after that key's lease expired — whoever held it before — and moves on to `WATCH` -/
+theorem holder_death_unblocks_writer (s0 : Sys) (h : Consistent s0.store) (es : List Ev) (j : Nat) (w : Writer)
+    (hc : (s0.run es).clients[j]? = some (.writer w)) (hpc : w.pc = .setnx) :
+    ((((s0.run es).step (.expire w.key)).step (.step j)).store.locks[w.key]? = some ⟨w.tok, true⟩) ∧
+    (((s0.run es).step (.expire w.key)).step (.step j)).clients[j]? = some (.writer { w with pc := .watch }) := by
+  generalize hs : s0.run es = s at hc
+  have hu := holder_death_unblocks s0 h es w.key w.tok
+  rw [hs] at hu
   have hc' : (s.step (.expire w.key)).clients[j]? = some (.writer w) := hc
   have hw : wstep (s.step (.expire w.key)).store (s.step (.expire w.key)).clock (s.step (.expire w.key)).nextTok j w =
       (((s.step (.expire w.key)).store.lockSetNX w.key w.tok).1, { w with pc := .watch }, false, none) := by
-    have h2 : ((s.step (.expire w.key)).store.lockSetNX w.key w.tok).2 = true := (holder_death_unblocks s w.key w.tok).1
+    have h2 : ((s.step (.expire w.key)).store.lockSetNX w.key w.tok).2 = true := hu.1
     simp only [wstep, hpc]
     exact if_pos h2
   refine ⟨?_, ?_⟩
   · rw [Sys.step_writer _ j w hc', hw]
-    exact (holder_death_unblocks s w.key w.tok).2
+    exact hu.2
   · rw [Sys.step_clients_self_writer _ j w hc', hw]
 
 /-- **why the expiry is needed**: while the cell of `k` exists — e.g. its holder died before releasing — a call standing
@@ -371,15 +391,49 @@ theorem blocked_while_held (s : Sys) (j : Nat) (w : Writer) (hc : s.clients[j]? 
   simp only [wstep, hpc, RStore.lockSetNX_some hheld']
   split <;> rfl
 
-/-- **what the `ttl` flag would be for**: on every reachable store (all cells carry a TTL: `lock_ttl`) the model's expiry
-is the TTL-respecting expiry `lockExpireTTL`, which frees only keys that carry a TTL; a cell without TTL survives it — its
-address would stay blocked for good.  This is the only place where `Consistent.ttl` does work for liveness, and it is why
-`facts_lock_ttl` (the source creates every lock key with a TTL) is the premise of `holder_death_unblocks`. -/
+/-- **the `ttl` premise is needed** (the converse of `holder_death_unblocks`): a lock cell **without** TTL survives any
+number of lease-expiry events of its key, with or without watcher invalidation, and after them every `SET NX` on that key
+still fails and changes nothing.  A lock key created without expiry by a holder that then died would block its address
+forever. -/
+theorem no_ttl_blocks_forever (st : RStore) (k : Nat) (c : LockCell) (hc : st.locks[k]? = some c) (ht : c.ttl = false)
+    (ds : List Bool) (tok : Nat) :
+    ds.foldl (fun st d => st.lockExpire k d) st = st ∧
+    (ds.foldl (fun st d => st.lockExpire k d) st).lockSetNX k tok = (st, false) := by
+  have h1 : ds.foldl (fun st d => st.lockExpire k d) st = st := by
+    induction ds with
+    | nil => rfl
+    | cons d ds ih => rw [List.foldl_cons, RStore.lockExpire_persistent hc ht d]; exact ih
+  exact ⟨h1, by rw [h1]; exact RStore.lockSetNX_some hc⟩
+
+/-- … as an event of the system: `Ev.expire k` leaves a state whose cell of `k` has no TTL unchanged -/
+theorem expire_no_ttl (s : Sys) (k : Nat) (c : LockCell) (hc : s.store.locks[k]? = some c) (ht : c.ttl = false) :
+    s.step (.expire k) = s := by
+  show { s with store := s.store.lockExpire k s.dirties } = s
+  rw [RStore.lockExpire_persistent hc ht]
+
+/-- `lock_ttl` now rests on the extracted lease being positive: with the TTL flag a non-positive lease would produce
+(`false`), `Consistent.ttl` fails right after the first `SET NX` -/
+theorem lock_ttl_needs_positive_lease (st : RStore) (k tok : Nat) :
+    ¬ Consistent { st with locks := st.locks.insert k ⟨tok, false⟩ } := by
+  intro h
+  have := h.ttl k ⟨tok, false⟩ (by show (st.locks.insert k ⟨tok, false⟩)[k]? = _; simp)
+  cases this
+
+/-- **what the `ttl` flag is for**: the model's expiry *is* the TTL-respecting expiry `lockExpireTTL` (which frees only keys
+that carry a TTL; a cell without TTL survives it — its address would stay blocked for good), and on every reachable store
+(all cells carry a TTL: `lock_ttl`) it removes the cell as the expiry of the model before review round 3 did
+(`RStore.lockExpire_eq_TTL`): the model change does not alter the behaviour on reachable states. -/
 theorem lockExpire_respects_ttl (s : Sys) (h : Consistent s.store) (es : List Ev) (k : Nat) (d : Bool) :
     (s.run es).store.lockExpire k d = (s.run es).store.lockExpireTTL k d ∧
     ∀ (st : RStore) (c : LockCell), st.locks[k]? = some c → c.ttl = false → st.lockExpireTTL k d = st :=
   ⟨RStore.lockExpire_eq_TTL (fun k' c hc => lock_ttl s h es k' c hc) k d,
    fun _ _ hc ht => RStore.lockExpireTTL_persistent hc ht d⟩
+
+/-- on a reachable store the expiry event removes an existing cell (the behaviour of the model before the `ttl` flag was
+read): the cell is gone -/
+theorem expire_reachable_removes (s0 : Sys) (h : Consistent s0.store) (es : List Ev) (k : Nat) :
+    ((s0.run es).step (.expire k)).store.locks[k]? = none :=
+  expire_frees (s0.run es) k fun c hc => lock_ttl s0 h es k c hc
 
 /-- a registry call that has taken the lock of its address and then dies (never scheduled again), and a second call on
 the same address -/
@@ -408,11 +462,19 @@ example :
       some ⟨1, true⟩ :=
   ⟨blocked_while_held (deadHolder.run [.step 0]) 1 (Writer.start ⟨.add, demoServer, fun _ => none⟩ 1) rfl rfl ⟨0, true⟩
       (by decide),
-   (holder_death_unblocks_writer (deadHolder.run [.step 0]) 1 (Writer.start ⟨.add, demoServer, fun _ => none⟩ 1) rfl rfl).1⟩
+   (holder_death_unblocks_writer deadHolder consistent_empty [.step 0] 1
+      (Writer.start ⟨.add, demoServer, fun _ => none⟩ 1) rfl rfl).1⟩
 
 /-- `lockExpire_respects_ttl` applies to everything reachable from the empty keyspace -/
 example (es : List Ev) (k : Nat) (d : Bool) :
     (deadHolder.run es).store.lockExpire k d = (deadHolder.run es).store.lockExpireTTL k d :=
   (lockExpire_respects_ttl deadHolder consistent_empty es k d).1
+
+/-- the hypotheses of `no_ttl_blocks_forever` are satisfiable: the same keyspace as after client 0's `SET NX`, but with the
+TTL flag off — three expiry events later the cell is still there and `SET NX` fails -/
+example :
+    let st : RStore := { locks := (∅ : ExtTreeMap Nat LockCell).insert 3 ⟨0, false⟩ }
+    ([true, false, true].foldl (fun st d => st.lockExpire 3 d) st).lockSetNX 3 1 = (st, false) :=
+  (no_ttl_blocks_forever _ 3 ⟨0, false⟩ (by simp) rfl [true, false, true] 1).2
 
 end Swat4.C10
